@@ -48,7 +48,31 @@ pub fn check(st: &mut Stats, c: &R) {
     };
     let ty = c.v.ty();
     st.op(Op::F_format);
-    let text = match lv.format_with(c.f) {
+    // both entry points: Formatter::format into a String, and the type's own format(picture) + Display
+    let via_display = (c.clk as usize + c.pic.len()) % 2 == 1;
+    let rendered = if via_display {
+        use std::fmt::Write;
+        let mut s = String::new();
+        macro_rules! via {
+            ($x:expr) => {
+                match $x.format(c.pic) {
+                    Ok(d) => write!(s, "{}", d).map(|_| s).map_err(|_| "fmt::Error".to_string()),
+                    Err(e) => Err(format!("{:?}", e)),
+                }
+            };
+        }
+        match lv {
+            LV::Date(x) => via!(x),
+            LV::Time(x) => via!(x),
+            LV::Ts(x) => via!(x),
+            LV::Ora(x) => via!(x),
+            LV::YM(x) => via!(x),
+            LV::DT(x) => via!(x),
+        }
+    } else {
+        lv.format_with(c.f)
+    };
+    let text = match rendered {
         Ok(t) => t,
         Err(e) => return st.fail(format!("C06/{}/format-fails", ty.name()), format!("{} under {:?}: {}", c.v.show(), c.pic, e)),
     };
